@@ -389,7 +389,54 @@ def run_case(case, ctx):
                     if m:
                         seen.add(trees.norm_path(m.group(1), root))
                 judge(seen, "lint-file")
-        # (d) annotate -r . (writes: last)
+        # (c2) the same from a sub directory, files named relative to it, --root spelled relatively as well
+        subdirs = sorted({os.path.dirname(p) for p in covered if os.path.dirname(p)})
+        if everything and subdirs:
+            sd = os.path.join(str(root), rng.choice(subdirs))
+            rel_args = [os.path.relpath(p, sd) for p in everything]
+            g2 = [g if g != str(root) else os.path.relpath(str(root), sd) for g in gopts]
+            r = run_cli(g2 + ["lint-file"] + rel_args, cwd=sd)
+            if r.escaped or r.exit_code == 2:
+                res.violation("lint-file-failed", f"lint-file from a sub directory: exit {r.exit_code} {r.exc_type}", tb=r.exc_tb, **r.brief())
+            else:
+                seen = set()
+                for line in r.stdout.splitlines():
+                    m = re.match(r"^(.*): (no license identifier|no copyright notice|read error|missing license \S+)$", line)
+                    if m:
+                        pth = m.group(1)
+                        pth = pth if os.path.isabs(pth) else os.path.join(sd, pth)
+                        seen.add(os.path.relpath(os.path.realpath(pth), os.path.realpath(root)))
+                judge(seen, "lint-file (cwd = sub directory)")
+        # (d) annotate -r <several directories, some of them excluded ones> on a copy, then annotate -r . (writes: last)
+        named = [d for d in ("LICENSES", ".reuse", "subprojects", "src", "docs") + tuple(submods) if os.path.isdir(os.path.join(str(root), d))]
+        for sub in ("subprojects/libfoo", "subprojects/libsub", "subprojects/libwrap"):
+            if os.path.isdir(os.path.join(str(root), sub)):
+                named.append(sub)
+        if named and not case["git"] or (named and rng.random() < 0.5):
+            copy = root.parent / "copy"
+            shutil.copytree(root, copy, symlinks=True)
+            pick = rng.sample(named, min(len(named), rng.randint(1, 3)))
+            gc = [g if g != str(root) else str(copy) for g in gopts]
+            b0 = snapshot(copy)
+            r = run_cli(gc + ["annotate", "-c", "Jane", "-l", "MIT", "--fallback-dot-license", "-r"] + [str(copy / d) for d in pick], cwd=str(copy))
+            if not (r.escaped or r.exit_code not in (0, 1)):
+                a0 = snapshot(copy)
+                touched = set()
+                for rel in set(b0) | set(a0):
+                    if rel.startswith(".git/") or rel == ".git":
+                        continue
+                    if b0.get(rel) != a0.get(rel) and (a0.get(rel) or ("x",))[0] != "d":
+                        touched.add(rel[:-len(".license")] if rel.endswith(".license") and (rel not in b0 or rel[:-8] in covered) else rel)
+                below = {c for c in covered if any(c.startswith(d + "/") for d in pick)}
+                res.n += 1
+                for rel in sorted((touched - below) - grey):
+                    res.violation(classify(rel, "examined-though-excluded", reasons), f"annotate -r {pick}: {rel!r} changed but is not a covered file below the named "
+                                  f"directories ({reasons.get(rel)})", rel=rel, opts=opts, git=case["git"])
+                for rel in sorted(below - touched):
+                    res.violation(classify(rel, "skipped", reasons), f"annotate -r {pick}: covered file {rel!r} was not annotated", rel=rel, opts=opts)
+                res.cell("annotate-r-named-dirs")
+            shutil.rmtree(copy, ignore_errors=True)
+        # (d2) annotate -r . (writes: last)
         before = snapshot(root)
         r = run_cli(gopts + ["annotate", "-c", "Jane", "-l", "MIT", "--fallback-dot-license", "-r", "."], cwd=str(root))
         if r.escaped or r.exit_code not in (0, 1):
